@@ -718,6 +718,7 @@ class Interp:
             return [(s, st) for s in normal_succs()]
         if k == "switch":
             d = self.eval_operand(st, inst, t["discr"])
+            self.eff(node, nidx, "SWITCH", discr=d, line=line)
             vals = t["values"]
             tgs = [inst.bmap[x] for x in t["targets"]]
             res = []
